@@ -31,6 +31,7 @@ pub fn c16_plan() -> Plan {
         s5: None,
         enumerate_session_end: None,
         enumerate_symbols: None,
+        relabel: None,
     }
 }
 
@@ -63,5 +64,6 @@ pub fn c19_plan() -> Plan {
         s5: None,
         enumerate_session_end: None,
         enumerate_symbols: None,
+        relabel: None,
     }
 }
